@@ -384,7 +384,9 @@ class FortranAST:
     def check_file(self, obj_tree):
         errors = []
         tmp_list = self.scope_list[:]  # shallow copy
-        if self.none_scope is not None:
+        # (the loose statements of an INCLUDEd file belong to the scope that
+        # includes it, whose diagnostics are those of its own file)
+        if self.none_scope is not None and self.none_scope.file_ast is self:
             tmp_list += [self.none_scope]
         for error in self.end_errors:
             if error[0] >= 0:
